@@ -14,7 +14,10 @@ import time
 import traceback
 
 ROOT = os.path.dirname(os.path.dirname(os.path.abspath(__file__)))
-REPO = "/repo"
+REPO = os.environ.get("VERIF_REPO", "/repo")
+OUT = os.environ.get("VERIF_OUT", ROOT)
+if REPO not in sys.path:
+    sys.path.insert(0, REPO)
 
 _SEEN_FUNCS = set()
 _NEW_FUNCS = []
@@ -45,9 +48,10 @@ def _install_function_recorder():
 
 
 def _worker_init(path_extra):
-    for p in path_extra:
-        if p not in sys.path:
-            sys.path.insert(0, p)
+    for p in list(path_extra) + [REPO]:
+        if p in sys.path:
+            sys.path.remove(p)
+        sys.path.insert(0, p)
     os.environ.setdefault("OMP_NUM_THREADS", "1")
     _install_function_recorder()
 
@@ -103,7 +107,7 @@ class Check:
         self.seed = self.args.seed
         self.t0 = time.time()
         import glob
-        for f in glob.glob(os.path.join(ROOT, "replays", "%s_*.json" % pid)):
+        for f in glob.glob(os.path.join(OUT, "replays", "%s_*.json" % pid)):
             try:
                 os.remove(f)
             except OSError:
@@ -188,8 +192,8 @@ class Check:
                     o["detail"] = "finding %s is not listed as open in known_findings.jsonl: %s" % (kid, o.get("detail", ""))
                     viol.append(o)
         # ---- report ---------------------------------------------------------------------------------
-        os.makedirs(os.path.join(ROOT, "replays"), exist_ok=True)
-        os.makedirs(os.path.join(ROOT, "evidence"), exist_ok=True)
+        os.makedirs(os.path.join(OUT, "replays"), exist_ok=True)
+        os.makedirs(os.path.join(OUT, "evidence"), exist_ok=True)
         for kid, (k, os_) in self.known_hit.items():
             print("KNOWN-FINDING: property=%s %s (%d instance(s), e.g. %s)" % (
                 self.pid, k.get("what", kid), len(os_), (os_[0].get("prog") or os_[0].get("label") or "")[:160]))
@@ -197,7 +201,7 @@ class Check:
         seen = set()
         for n, o in enumerate(viol):
             key = (o.get("prog"), o.get("label"), o.get("detail"))
-            path = os.path.join(ROOT, "replays", "%s_%d.json" % (self.pid, n))
+            path = os.path.join(OUT, "replays", "%s_%d.json" % (self.pid, n))
             with open(path, "w") as f:
                 json.dump(_jsonable(dict(property=self.pid, outcome={k: v for k, v in o.items() if not k.startswith("_")},
                                          instance=o.get("_inst"))), f, indent=1)
@@ -206,7 +210,7 @@ class Check:
                 print("  detail: %s :: %s :: %s" % (o.get("label", ""), (o.get("prog") or "")[:300], o.get("detail", "")[:300]))
             seen.add(key)
             exit_code = 1
-        with open(os.path.join(ROOT, "replays", "%s_nonok.json" % self.pid), "w") as f:
+        with open(os.path.join(OUT, "replays", "%s_nonok.json" % self.pid), "w") as f:
             json.dump(_jsonable([{k: v for k, v in o.items() if k not in ("_inst", "replay")} for o in self.outcomes
                                  if o["status"] != "ok"]), f, indent=0)
         n_total = len(self.outcomes)
@@ -258,7 +262,7 @@ class Check:
         ev = dict(property_id=self.pid, tier=self.tier, seed=self.seed, level=self.level, coverage=cov,
                   assumptions=list(self.assumptions), wall_s=round(time.time() - self.t0, 2),
                   violations=len(viol))
-        with open(os.path.join(ROOT, "evidence", "%s.json" % self.pid), "w") as f:
+        with open(os.path.join(OUT, "evidence", "%s.json" % self.pid), "w") as f:
             json.dump(_jsonable(ev), f, indent=1)
         print("%s %s: %d instances: %s; obligations %d discharged %d; solver %.1fs; wall %.1fs" % (
             self.pid, self.tier, n_total, dict(by), obligations, discharged, self.stats.get("solver_s", 0.0), time.time() - self.t0))
